@@ -48,7 +48,9 @@ ECHO_LINES = ['units metal', 'atom_style atomic', 'boundary p p p', 'read_data a
               'change_box all triclinic', 'write_restart final.restart', 'read_restart a.restart', 'reset_timestep 0',
               'compute pe all pe/atom', 'min_modify dmax 0.01', 'log none', 'echo both',
               # input scripts are UTF-8 text: comments, labels and paths with characters beyond ASCII are echoed as they are
-              '# a = 4.05 Å, ΔT = ±5 K', 'read_data /home/rené/données/atom.dat', 'print "σ_xx = 1.5 GPa → relaxed"', '# 緩和計算']
+              '# a = 4.05 Å, ΔT = ±5 K', 'read_data /home/rené/données/atom.dat', 'print "σ_xx = 1.5 GPa → relaxed"', '# 緩和計算',
+              # characters that Python's str.splitlines() takes for line ends although neither LAMMPS nor a file does
+              'print "page one\x0cpage two"', '# section\u2028continued', 'print "a\x85b"', '# v\x0btab', '# fs\x1csep \u2029 par']
 
 WARNINGS = ['WARNING: Using a manybody potential with bonds/angles/dihedrals and special_bond exclusions (src/pair.cpp:243)',
             'WARNING: No fixes with time integration, atoms won\'t move (src/verlet.cpp:60)',
